@@ -15,6 +15,7 @@ import (
 	"fmt"
 	"os"
 	"runtime"
+	"runtime/pprof"
 	"sort"
 	"strings"
 	"sync"
@@ -374,7 +375,14 @@ type found struct {
 	rec caseRec
 }
 
+type probed struct {
+	L int64
+	o outcome
+}
+
 type worker struct {
+	probes     []probed
+	limits     []int64
 	ctx        *vm.Context
 	runs       int
 	cases      int
@@ -469,11 +477,12 @@ func (w *worker) evalCase(pl plan, prog []byte, args [][]byte) {
 	if base.v != nil {
 		return // one mechanism per case; the consequences at other limits are not separate findings
 	}
-	limits := make([]int64, 0, pl.sweep+len(pl.extras))
+	limits := w.limits[:0]
 	for l := 0; l < pl.sweep; l++ {
 		limits = append(limits, int64(l))
 	}
 	limits = append(limits, pl.extras...)
+	w.limits = limits
 
 	if base.class == "runlimit" {
 		// needs more than bigLimit (a loop, or an expensive program): everything below fails the same way
@@ -495,19 +504,15 @@ func (w *worker) evalCase(pl plan, prog []byte, args [][]byte) {
 
 	// locate need g: the least limit under which the run does not end in ErrRunLimitExceeded
 	lo := bigLimit - base.minRun
-	type probed struct {
-		L int64
-		o outcome
-	}
-	probes := append(make([]probed, 0, 16), probed{bigLimit, base})
+	w.probes = append(w.probes[:0], probed{bigLimit, base})
 	probe := func(L int64) outcome {
-		for i := range probes {
-			if probes[i].L == L {
-				return probes[i].o
+		for i := range w.probes {
+			if w.probes[i].L == L {
+				return w.probes[i].o
 			}
 		}
 		r := w.run(pl, prog, args, L)
-		probes = append(probes, probed{L, r})
+		w.probes = append(w.probes, probed{L, r})
 		return r
 	}
 	fails := func(L int64) bool { return probe(L).class == "runlimit" }
@@ -531,7 +536,7 @@ func (w *worker) evalCase(pl plan, prog []byte, args [][]byte) {
 		}
 		g = good
 	}
-	for _, r := range probes {
+	for _, r := range w.probes {
 		if r.o.v != nil {
 			return
 		}
@@ -540,7 +545,7 @@ func (w *worker) evalCase(pl plan, prog []byte, args [][]byte) {
 		w.maxNeed = g
 	}
 	inherit := base.inherit
-	for _, r := range probes {
+	for _, r := range w.probes {
 		inherit = inherit || r.o.inherit
 	}
 	if inherit {
@@ -598,6 +603,11 @@ type unit struct {
 func pushNum(n int64) []byte { return exact(vm.Uint64Bytes(uint64(n))...) }
 
 func main() {
+	if pf := os.Getenv("VERIF_CPUPROFILE"); pf != "" { // debugging aid
+		f, _ := os.Create(pf)
+		pprof.StartCPUProfile(f)
+		defer pprof.StopCPUProfile()
+	}
 	run := ev.Start("C07", "exploration")
 	thorough := run.Thorough()
 
@@ -898,5 +908,6 @@ func main() {
 		f := foundAll[k]
 		run.Violation(k, f.what, f.rec)
 	}
+	pprof.StopCPUProfile()
 	run.Finish()
 }
